@@ -6,8 +6,10 @@ use serde_json::json;
 use std::time::Duration;
 use tokio::task::JoinHandle;
 
+pub mod chmux_block;
 pub mod chmux_data;
 pub mod chmux_life;
+pub mod chmux_misc;
 
 pub type MuxResult = Result<(), ChMuxError<io::Error, io::Error>>;
 
@@ -70,6 +72,8 @@ pub struct Conn {
     pub client: [Option<Client>; 2],
     pub listener: [Option<Listener>; 2],
     pub run: [Option<JoinHandle<MuxResult>>; 2],
+    /// Connection timeout (ms) used to let virtual time pass during teardown after a silent fault.
+    pub timeout_ms: u64,
 }
 
 pub fn mux_err_class(r: &MuxResult) -> &'static str {
@@ -87,8 +91,7 @@ pub fn mux_err_class(r: &MuxResult) -> &'static str {
 impl Conn {
     /// Handshake with eager delivery, then both dispatchers are spawned (labelled, deferrable by H1).
     pub async fn establish(a: &EpCfg, b: &EpCfg) -> Conn {
-        let ab = Link::new(1);
-        let ba = Link::new(2);
+        let (ab, ba) = link_pair();
         let (a_sink, b_stream) = ab.halves();
         let (b_sink, a_stream) = ba.halves();
         let a_new = Labeled::new(1, ChMux::new(a.to_cfg(), a_sink, a_stream));
@@ -106,7 +109,7 @@ impl Conn {
         let a_run = tokio::spawn(remoc::verif::Deferred::new(Labeled::new(1, am.run())));
         let b_run = tokio::spawn(remoc::verif::Deferred::new(Labeled::new(2, bm.run())));
         settle().await;
-        Conn { ab, ba, client: [Some(ac), Some(bc)], listener: [Some(al), Some(bl)], run: [Some(a_run), Some(b_run)] }
+        Conn { ab, ba, client: [Some(ac), Some(bc)], listener: [Some(al), Some(bl)], run: [Some(a_run), Some(b_run)], timeout_ms: 0 }
     }
 
     /// Link carrying frames sent by endpoint `ep` (1 or 2).
@@ -163,10 +166,18 @@ impl Conn {
                 tr(json!({"ev": "drop", "ep": i + 1, "what": "listener"}));
             }
         }
-        for _ in 0..200 {
+        let mut waited = 0u64;
+        for round in 0..400 {
             self.flush().await;
             if self.reap().await == 0 {
                 break;
+            }
+            let faulted = self.ab.0.lock().unwrap().faulted || self.ba.0.lock().unwrap().faulted;
+            if round % 10 == 9 && faulted && self.timeout_ms > 0 && waited < 4 * self.timeout_ms {
+                let step = self.timeout_ms / 4;
+                tr(json!({"ev": "advance", "ms": step}));
+                tokio::time::advance(Duration::from_millis(step)).await;
+                waited += step;
             }
         }
         for i in 0..2 {
